@@ -26,7 +26,7 @@ Record modul := mkmodul { mo_doc : doclines; mo_attrs : list attr; mo_name : sid
 Record file := mkfile { f_attrs : list attr; f_module : option modul; f_defs : list defn }.
 
 (* diagnostics raised by the actions (they do not stop the parse) *)
-Inductive pdiag := PdDocOnModule | PdDocOnParam | PdSmallTuple | PdInvalidInt (base : N) | PdIntOverflow | PdTagBounds.
+Inductive pdiag := PdDocOnModule | PdDocOnParam | PdSmallTuple | PdInvalidInt (base : N) | PdIntOverflow | PdTagBounds | PdModuleRequired.
 Inductive perror := PeToken (t : ptok) | PeEof (at_ : loc) | PeLex (e : plexerr) | PeFuel.
 Record pstate := mkps { ps_toks : list ptok; ps_lexerr : option plexerr; ps_last : loc; ps_diags : list (pdiag * sspan) }.
 Inductive pres (A : Type) := POk_ (a : A) (s : pstate) | PErr_ (e : perror).
@@ -355,7 +355,9 @@ Definition p_file (fuel : nat) (s : pstate) : pres file :=
       plet ds, s5 <- p_definitions fuel s4 ;;
       POk_ (mkfile fattrs (Some (mkmodul (fst pre) (snd pre) name sp)) ds) s5
     else
-      plet d, s3 <- p_definition_after_prelude fuel pre s2 ;; plet ds, s4 <- p_definitions fuel s3 ;; POk_ (mkfile fattrs None (d :: ds)) s4
+      (* parsers/mod.rs: definitions without a module declaration are a syntax error (reported without a location) *)
+      plet d, s3 <- p_definition_after_prelude fuel pre s2 ;; plet ds, s4 <- p_definitions fuel s3 ;;
+      POk_ (mkfile fattrs None (d :: ds)) (add_diag s4 PdModuleRequired (mksspan (mkloc 0 0) (mkloc 0 0)))
   end.
 
 Definition parse_blocks (bs : list (loc * list N)) : pres file :=
